@@ -155,7 +155,8 @@ impl ToTokens for DataMatchArm<'_> {
             tokens.append_all(quote!(
                 #name_in_attr => {
                     if let ::darling::export::syn::Meta::List(ref __data) = *__nested {
-                        let __items = ::darling::export::NestedMeta::parse_meta_list_args(__data)?;
+                        let __items = ::darling::export::NestedMeta::parse_meta_list_args(__data)
+                            .map_err(|e| ::darling::Error::from(e).at(#name_in_attr))?;
                         let __items = &__items;
 
                         #declare_errors
